@@ -8,6 +8,7 @@ import TinsModel.Wire.Icmp.ThIcmp6Write
   structure), and the RFC 4884 length octet is what the code derives — equal to the number of 32-bit (64-bit) words between
   the header and the extension structure / the end of the message outside the known findings KF-C05-1 / KF-C05-2.
 -/
+set_option autoImplicit false
 namespace Tins.Wire.Derived
 open Tins Tins.Wire Tins.Wire.Icmp
 
